@@ -28,7 +28,7 @@ import mido.sockets as msock  # noqa: E402
 
 HOSTS = ('', 'localhost', '127.0.0.1', '0.0.0.0', 'example.org', 'a', '10.1.2.3', 'host-name.local')
 PORTS = (1, 2, 80, 1023, 1024, 8080, 9080, 32767, 32768, 65534, 65535)
-CONSUMERS = ('iter', 'receive', 'poll', 'iter_pending')
+CONSUMERS = ('iter', 'receive', 'poll', 'iter_pending', 'iter_break')
 SHAPES = ('note_on', 'control_change', 'program_change', 'pitchwheel', 'sysex', 'songpos', 'note_off')
 
 
@@ -147,7 +147,8 @@ class NetSim(BaseEngine):
                          'closer': pick(rng, ('client', 'server_conn')),
                          'latency': pick(rng, (0.0, 0.0005, 0.01, 0.2)),
                          'consumer': pick(rng, CONSUMERS), 'poll_advance': pick(rng, (0.0005, 0.004, 0.3)),
-                         'reader_before_close': rng.random() < 0.5, 'late_sends': pick(rng, (0, 0, 1, 2, 3))})
+                         'reader_before_close': rng.random() < 0.5, 'late_sends': pick(rng, (0, 0, 1, 2, 3)),
+                         'server_polls': pick(rng, (0, 0, 1, 3))})
         else:
             clients = []
             for c in range(rng.randint(1, 3)):
@@ -285,7 +286,32 @@ class NetSim(BaseEngine):
             nxt = net.next_event_time()
             clock.last_event = max(clock.last_event, nxt if nxt is not None else clock.now)
             clock.arm()
-        if consumer == 'iter':
+        if consumer == 'iter_break':
+            # the application leaves its for-loop after every message and starts a new one later
+            while True:
+                arm()
+
+                def one():
+                    for m in port:
+                        return m
+                    return StopIteration
+                tagr, res = self._guard(f'{tag}.iter', one, expect=(OSError,) if allow_oserror else ())
+                if tagr == 'never-returned':
+                    ended = 'never-returned'
+                    break
+                if tagr == 'raised':
+                    ended = f'raised:{type(res).__name__}'
+                    break
+                if res is StopIteration:
+                    ended = 'stop'
+                    break
+                got.append(Snap(res))
+                log.ev(tag, 'iter_break', repr(res))
+                if plan.get('mutate'):
+                    consumer_edit(res)
+                if len(got) > 500:
+                    raise Violation(f'unbounded@{tag}', 'iteration yielded more than 500 messages')
+        elif consumer == 'iter':
             it = iter(port)
             while True:
                 arm()
@@ -510,7 +536,7 @@ class NetSim(BaseEngine):
                 raise Violation('disconnect:wrong-messages',
                                 f'cut {c} of {len(stream)}: yielded {got!r}, the completely arrived messages are '
                                 f'{expected!r} (stream {bytes(stream).hex(" ")})')
-            if plan['consumer'] == 'iter' and ended != 'stop':
+            if plan['consumer'] in ('iter', 'iter_break') and ended != 'stop':
                 raise Violation('disconnect:iteration-raised', f'cut {c}: iteration ended by {ended}')
             if ended in ('rounds-exhausted', 'quiet'):
                 raise Violation(f'disconnect:not-noticed@{plan["consumer"]}',
@@ -571,6 +597,17 @@ class NetSim(BaseEngine):
                 ia += 1
             if r[0] != 'ok':
                 raise Violation('send-never-returned', 'send() on an open socket port did not return')
+        if plan.get('server_polls'):
+            # the application also keeps polling the server object (for further clients) while it uses the port that
+            # accept() handed out: that port is the caller's, its messages come out of it and nowhere else
+            clock.now += plan['latency']
+            net.pump()
+            for _ in range(plan['server_polls']):
+                r = self._guard('server.poll', server.poll)
+                if r[0] != 'ok':
+                    raise Violation('server:poll-never-returned', 'PortServer.poll() did not return')
+                log.ev('server.poll', repr(r[1]))
+            stats['fault:server_polled_while_accepted_port_in_use'] += 1
         closer, other = (client, sconn) if plan['closer'] == 'client' else (sconn, client)
         to_other = a2b_snap if closer is client else b2a_snap
         if plan.get('autoreset'):
@@ -589,7 +626,7 @@ class NetSim(BaseEngine):
         log.ev('closed', plan['closer'])
         stats['fault:orderly_close'] += 1
         send_failed = False
-        if plan.get('late_sends') and plan['consumer'] == 'iter':
+        if plan.get('late_sends') and plan['consumer'] in ('iter', 'iter_break'):
             # the side that was left behind does not know yet and keeps sending: the usual way a two-way
             # application meets the hang-up. Each send may work or fail with OSError / ValueError.
             clock.now += plan['latency'] + 0.001
@@ -621,7 +658,7 @@ class NetSim(BaseEngine):
         if ended in ('rounds-exhausted', 'quiet'):
             raise Violation(f'peer-close:not-seen@{plan["consumer"]}',
                             f'{plan["closer"]} closed its socket port, but the peer never reported closed ({ended})')
-        if plan['consumer'] == 'iter' and ended != 'stop':
+        if plan['consumer'] in ('iter', 'iter_break') and ended != 'stop':
             raise Violation('peer-close:iteration-raised', f'iteration on the peer ended by {ended}')
         if not other.closed:
             raise Violation('peer-close:not-closed', 'peer port.closed is False after the disconnect')
@@ -666,7 +703,11 @@ class NetSim(BaseEngine):
 
             def dial(ci=ci, state=state, data=data, cut=cut):
                 raw = net.socket()
-                raw.connect((host, portno))
+                try:
+                    raw.connect((host, portno))
+                except ConnectionRefusedError:
+                    raise Violation('server:stopped-listening', f'client {ci} could not connect: the server no longer '
+                                                                f'listens although nobody closed it')
                 state['raw'] = raw
                 raw.tx.inflight += bytes(data[:cut])
                 raw.tx.written += cut
